@@ -247,16 +247,18 @@ def run_z3(text: str, timeout_s: float, want_model=False):
         m = s.model()
         model = {}
         for d in m.decls():
+            if d.arity() > 0:
+                continue  # interpretation of division at zero etc.: printing it can take exponential time
             v = m[d]
             try:
                 if z3.is_algebraic_value(v):
                     v = v.approx(20)
-                model[d.name()] = float(v.numerator_as_long()) / float(v.denominator_as_long())
-            except Exception:
-                try:
-                    model[d.name()] = float(str(v))
-                except Exception:
+                if z3.is_rational_value(v):
+                    model[d.name()] = float(v.numerator_as_long()) / float(v.denominator_as_long())
+                elif z3.is_true(v) or z3.is_false(v):
                     model[d.name()] = str(v)
+            except Exception:
+                pass
     return res, time.time() - t0, model
 
 
